@@ -57,6 +57,10 @@ type c18Cfg struct {
 	Expire         time.Duration
 	SkipButton     bool
 	HTPasswd       bool
+	Redirect       string            // --redirect-url mode: "" (derived from the request) | host:<name> | relative
+	Raw            map[string]string // flag name -> value text exactly as the operator spelt it (spelling sweep); the fields above hold what it means
+	RawDomains     []string          // --cookie-domain values as spelt (nil: Domains)
+	Spelling       string
 
 	Prefix string // proxy prefix (under the cookie path, so that a browser would return the cookies to it)
 	Flags  []string
@@ -92,7 +96,11 @@ func c18Name(class string, k int) string {
 
 // factor levels, in this order: secure, httponly, samesite, path, domains, name, store, per-request, reverse-proxy, csrf-expire, expire, skip-button,
 // duplicate-domain (the same --cookie-domain listed twice: validation accepts it, the configured list is a SET for the rule)
-var c18Levels = []int{2, 2, 4, 2, 6, 3, 2, 2, 2, 2, 2, 2, 2}
+// redirect-url (derived from the request / explicit host a.example.com / sibling auth.example.com under a shared configured domain /
+// host matching no configured domain / relative): the cookie Domain follows the REQUEST host whatever the redirect URL says
+var c18Levels = []int{2, 2, 4, 2, 6, 3, 2, 2, 2, 2, 2, 2, 2, 5}
+
+var c18Redirects = []string{"", "host:a.example.com", "host:auth.example.com", "host:login.other.test:8443", "relative"}
 
 func c18FromVector(id int, v []int) *c18Cfg {
 	c := &c18Cfg{ID: id, Secure: v[0] == 1, HTTPOnly: v[1] == 0, SameSite: c18SameSites[v[2]], Path: c18Paths[v[3]], DomainSet: c18DomainSets[v[4]].Name,
@@ -115,6 +123,9 @@ func c18FromVector(id int, v []int) *c18Cfg {
 			c.Domains = append(c.Domains, pick) // listed three times
 		}
 		c.DomainSet += "+duplicate"
+	}
+	if len(v) > 13 {
+		c.Redirect = c18Redirects[v[13]]
 	}
 	c.Name = c18Name(c.NameClass, id)
 	c.Prefix = "/oauth2"
@@ -217,8 +228,28 @@ func (c *c18Cfg) build(w *vfWorld, htpasswd string, withP2 bool) error {
 		// refreshed ID tokens carry no nonce (as with most providers); the nonce re-check after a refresh is not this property's concern
 		"--insecure-oidc-skip-nonce=true",
 	}
-	for _, d := range c.Domains {
+	doms := c.Domains
+	if c.RawDomains != nil {
+		doms = c.RawDomains
+	}
+	for _, d := range doms {
 		f = append(f, "--cookie-domain="+d)
+	}
+	for i := range f {
+		name := f[i][2:strings.IndexByte(f[i], '=')]
+		if v, ok := c.Raw[name]; ok {
+			f[i] = "--" + name + "=" + v
+		}
+	}
+	switch {
+	case strings.HasPrefix(c.Redirect, "host:"):
+		scheme := "http"
+		if c.Secure {
+			scheme = "https"
+		}
+		f = append(f, "--redirect-url="+scheme+"://"+strings.TrimPrefix(c.Redirect, "host:")+c.Prefix+"/callback")
+	case c.Redirect == "relative":
+		f = append(f, "--redirect-url="+c.Prefix+"/callback", "--relative-redirect-url=true")
 	}
 	if c.Store == "redis" {
 		f = append(f, "--redis-connection-url="+w.RedisURL())
@@ -285,47 +316,62 @@ func c18WantDomain(domains []string, effHost string) (want []string, rule string
 		return []string{""}, "none"
 	}
 	host := c18StripPort(effHost)
-	pick := func(labelBoundary bool) string {
-		best := ""
+	// one reading of "the longest configured domain matching the request host, else the shortest configured one"
+	resolve := func(labelBoundary, foldCase bool) (string, bool) {
+		h := host
+		if foldCase {
+			h = strings.ToLower(h)
+		}
+		best, found := "", false
 		for _, d := range domains {
-			if !strings.HasSuffix(host, d) {
+			dd := d
+			if foldCase {
+				dd = strings.ToLower(dd)
+			}
+			if !strings.HasSuffix(h, dd) {
 				continue
 			}
 			if labelBoundary {
-				bare := strings.TrimPrefix(d, ".")
-				if !(host == bare || strings.HasSuffix(host, "."+bare)) {
+				bare := strings.TrimPrefix(dd, ".")
+				if !(h == bare || strings.HasSuffix(h, "."+bare)) {
 					continue
 				}
 			}
-			if len(d) > len(best) {
-				best = d
+			if !found || len(d) > len(best) {
+				best, found = d, true
 			}
 		}
-		return best
-	}
-	a, b := pick(false), pick(true)
-	if a == "" {
-		short := domains[0]
-		for _, d := range domains {
-			if len(d) < len(short) {
-				short = d
-			}
-		}
-		return []string{strings.TrimPrefix(short, ".")}, "fallback"
-	}
-	if a != b {
-		if b == "" {
-			short := domains[0]
+		if !found {
+			best = domains[0]
 			for _, d := range domains {
-				if len(d) < len(short) {
-					short = d
+				if len(d) < len(best) {
+					best = d
 				}
 			}
-			b = short
 		}
-		return []string{strings.TrimPrefix(a, "."), strings.TrimPrefix(b, ".")}, "ambiguous"
+		return strings.ToLower(strings.TrimPrefix(best, ".")), found
 	}
-	return []string{strings.TrimPrefix(a, ".")}, "longest"
+	// primary reading: plain string suffix, case as configured. The others are accepted only where they disagree with it:
+	// label-boundary matching (xa.example.com vs a.example.com) and case-insensitive matching (a domain configured in upper case).
+	prim, matched := resolve(false, false)
+	want = []string{prim}
+	for _, alt := range [][2]bool{{true, false}, {false, true}, {true, true}} {
+		v, _ := resolve(alt[0], alt[1])
+		dup := false
+		for _, w := range want {
+			dup = dup || w == v
+		}
+		if !dup {
+			want = append(want, v)
+		}
+	}
+	switch {
+	case len(want) > 1:
+		return want, "ambiguous"
+	case matched:
+		return want, "longest"
+	}
+	return want, "fallback"
 }
 
 func c18Hosts(cfg *c18Cfg, thorough bool) []c18Host {
@@ -592,7 +638,7 @@ func c18MonitorResponse(run *vfRun, p *vfProxy, req *vfReq, resp *vfResp) {
 }
 
 func (c *c18Cfg) describe() string {
-	return fmt.Sprintf("#%d secure=%v httponly=%v samesite=%q path=%s domains=%v name=%s(%d) store=%s csrf-per-request=%v reverse-proxy=%v", c.ID, c.Secure, c.HTTPOnly, c.SameSite, c.Path, c.Domains, c.NameClass, len(c.Name), c.Store, c.CSRFPerRequest, c.ReverseProxy)
+	return fmt.Sprintf("#%d secure=%v httponly=%v samesite=%q path=%s domains=%v name=%s(%d) store=%s csrf-per-request=%v reverse-proxy=%v redirect-url=%q%s", c.ID, c.Secure, c.HTTPOnly, c.SameSite, c.Path, c.Domains, c.NameClass, len(c.Name), c.Store, c.CSRFPerRequest, c.ReverseProxy, c.Redirect, c.Spelling)
 }
 
 func c18TrimReq(r *vfReq) *vfReq {
@@ -777,6 +823,9 @@ type c18Flow struct {
 
 func (f *c18Flow) target(path string) string {
 	// application paths live under the cookie path, as they must for a browser to return the cookies
+	if !strings.HasPrefix(f.cfg.Path, "/") {
+		return path // a cookie path spelt without its leading slash cannot prefix a request target
+	}
 	return strings.TrimSuffix(f.cfg.Path, "/") + path
 }
 
@@ -1071,6 +1120,78 @@ func (f *c18Flow) phase2() {
 // ---------------------------------------------------------------------------------------------------------
 
 // ---------------------------------------------------------------------------------------------------------
+// spelling sweep: unusual but plausible spellings of the cookie options. Each either fails at start-up (counted: the
+// operator is told) or the instance starts and every Set-Cookie carries what the operator asked for.
+
+type c18Spelling struct {
+	Label string
+	Flag  string   // option whose value is spelt unusually
+	Value string   // as spelt on the command line
+	Doms  []string // for cookie-domain: the values as spelt
+	Apply func(c *c18Cfg)
+}
+
+func c18Spellings() []c18Spelling {
+	ss := func(spelt, means string) c18Spelling {
+		return c18Spelling{Label: fmt.Sprintf("cookie-samesite=%q", spelt), Flag: "cookie-samesite", Value: spelt, Apply: func(c *c18Cfg) { c.SameSite = means }}
+	}
+	sec := func(spelt string, means bool) c18Spelling {
+		return c18Spelling{Label: "cookie-secure=" + spelt, Flag: "cookie-secure", Value: spelt, Apply: func(c *c18Cfg) { c.Secure = means }}
+	}
+	ho := func(spelt string, means bool) c18Spelling {
+		return c18Spelling{Label: "cookie-httponly=" + spelt, Flag: "cookie-httponly", Value: spelt, Apply: func(c *c18Cfg) { c.HTTPOnly = means }}
+	}
+	path := func(spelt string) c18Spelling {
+		return c18Spelling{Label: "cookie-path=" + spelt, Flag: "cookie-path", Value: spelt, Apply: func(c *c18Cfg) {
+			c.Path = spelt // the attribute is the operator's text, verbatim
+			c.Prefix = "/oauth2"
+			if strings.HasPrefix(spelt, "/") && spelt != "/" {
+				c.Prefix = strings.TrimSuffix(spelt, "/") + "/oauth2"
+			}
+		}}
+	}
+	dom := func(spelt ...string) c18Spelling {
+		return c18Spelling{Label: fmt.Sprintf("cookie-domain=%v", spelt), Flag: "cookie-domain", Doms: spelt, Apply: func(c *c18Cfg) { c.Domains = spelt }}
+	}
+	return []c18Spelling{
+		ss("Strict", "strict"), ss("Lax", "lax"), ss("None", "none"), ss("STRICT", "strict"), ss("LaX", "lax"), ss(" strict", "strict"), ss("none ", "none"),
+		sec("True", true), sec("1", true), sec("TRUE", true), sec("t", true), sec("0", false), sec("False", false),
+		ho("True", true), ho("1", true), ho("0", false), ho("F", false), ho("FALSE", false),
+		path("app/"), path("/app"), path("/App/"), path("/app/v1/"),
+		dom(".example.com", ".a.example.com"), dom("Example.COM"), dom("EXAMPLE.COM", "A.Example.Com"), dom(".Example.com"),
+	}
+}
+
+func c18SpellingCfgs(run *vfRun, w *vfWorld, t *testing.T) []*c18Cfg {
+	var out []*c18Cfg
+	accepted, rejected := []string{}, []string{}
+	for i, sp := range c18Spellings() {
+		cfg := &c18Cfg{ID: 200000 + i, Secure: true, HTTPOnly: true, SameSite: "lax", Path: "/", DomainSet: "spelling", Domains: []string{"example.com", "a.example.com"},
+			Name: "_oauth2_proxy", NameClass: "short", Store: c18Stores[i%2], CSRFPerRequest: i%4 >= 2, CSRFExpire: 15 * time.Minute, Expire: 168 * time.Hour, Prefix: "/oauth2",
+			Spelling: " [spelt " + sp.Label + "]"}
+		sp.Apply(cfg)
+		if sp.Doms != nil {
+			cfg.RawDomains = sp.Doms
+		} else {
+			cfg.Raw = map[string]string{sp.Flag: sp.Value}
+		}
+		run.Count("spelling_variants", 1)
+		if err := cfg.build(w, "", false); err != nil {
+			// refused at start-up: the operator is told, no cookie is ever emitted under this spelling
+			run.Count("spelling_refused_at_startup", 1)
+			rejected = append(rejected, sp.Label)
+			continue
+		}
+		run.Count("spelling_accepted", 1)
+		accepted = append(accepted, sp.Label)
+		out = append(out, cfg)
+	}
+	run.Extra("spellings_refused_at_startup", rejected)
+	run.Extra("spellings_accepted", accepted)
+	return out
+}
+
+// ---------------------------------------------------------------------------------------------------------
 // split-threshold boundary sweep: session sizes in the window just below and above the point where the cookie store
 // starts splitting, under configurations whose attributes serialise long. Every emitted line goes through the monitor
 // (<= 4096 bytes on the RAW line, attributes, Domain ...). Driven through the proxy's own SaveSession.
@@ -1240,6 +1361,12 @@ func c18RefSelfTest(t *testing.T) {
 			t.Fatalf("C18 reference self-test: domains %v host %q: got %v/%s, want %q/%s", c.domains, c.host, got, rule, c.want, c.rule)
 		}
 	}
+	if got, rule := c18WantDomain([]string{"Example.COM"}, "a.example.com"); rule != "fallback" || len(got) != 1 || got[0] != "example.com" {
+		t.Fatalf("C18 reference self-test: upper-case single domain: %v %s", got, rule) // matching or not, the one configured domain is the answer
+	}
+	if got, rule := c18WantDomain([]string{"example.com", "A.Example.com"}, "b.a.example.com"); rule != "ambiguous" || len(got) != 2 {
+		t.Fatalf("C18 reference self-test: upper-case nested domain: %v %s", got, rule)
+	}
 	if got, rule := c18WantDomain([]string{"example.com", "a.example.com"}, "xa.example.com"); rule != "ambiguous" || len(got) != 2 {
 		t.Fatalf("C18 reference self-test: lookalike host: %v %s", got, rule)
 	}
@@ -1254,7 +1381,8 @@ func TestVerif_C18(t *testing.T) {
 	run.SetRule("every raw Set-Cookie line of every response of the scenario library (unauthenticated visit, sign-in page, start, failing callbacks {provider error, bogus code, foreign state, CSRF cookie tampered / re-stamped / truncated / garbage / emptied / missing, undecodable state, no code, POST} for anonymous and signed-in browsers, callback success, split session, htpasswd form login, " +
 		"concurrent logins / per-request CSRF, refresh re-issue, tampered-cookie clearing, authorisation-failure clearing on a second instance, sign-out) under cookie-option configurations " +
 		"(covering array in quick: all triples of {secure, httponly, samesite, path, domain set, name length, store} and all pairs with {csrf-per-request, reverse-proxy, csrf-expire, expire, skip-provider-button, a cookie domain listed more than once}; full product of {secure, httponly, samesite, path, domain set, name length, store} in thorough) x request hosts {exact, sub, deep, deeper, unrelated, look-alike, IP} x {no port, port} x {Host, X-Forwarded-Host in reverse-proxy mode, X-Forwarded-Host with reverse-proxy off}. " +
-		"plus a split-threshold boundary sweep (SaveSession with every token length in [first split length-160, +8] under configurations with long Domain/Path attributes and long names). " +
+		"plus --redirect-url {derived, explicit same / sibling / unrelated host, relative} as a pairwise factor, a spelling sweep (capitalised / padded samesite, True/1/0 booleans, cookie-path without leading slash, cookie-domain with leading dot / upper case: refused at start-up or honoured) " +
+		"and a split-threshold boundary sweep (SaveSession with every token length in [first split length-160, +8] under configurations with long Domain/Path attributes and long names). " +
 		"cell = (cookie kind, deletion?, attribute vector, domain-rule case, host shape). Domain reading in force: port ignored (fix 09579bc / F8)")
 	run.Assume("the client returns every cookie it was given regardless of Secure/Domain/Path matching (the proxy never sees those attributes on a request); application and proxy paths are placed under --cookie-path",
 		"hosts for which plain-suffix and label-boundary matching disagree (xa.example.com vs a.example.com) accept either reading's Domain",
@@ -1336,6 +1464,14 @@ func TestVerif_C18(t *testing.T) {
 			cfgs = append(cfgs, cfg)
 		}
 		var fl []*c18Flow
+		if lo == 0 {
+			// the spelling sweep rides along with the first batch (it needs the same wait for the refresh scenarios)
+			for _, cfg := range c18SpellingCfgs(run, w, t) {
+				for hi, h := range []c18Host{{Host: "a.example.com:8443", Shape: "sub+port/spelling"}, {Host: "b.a.example.com", Shape: "deep/spelling"}, {Host: "other.test", Shape: "unrelated/spelling"}} {
+					fl = append(fl, &c18Flow{run: run, w: w, cfg: cfg, h: h, large: hi == 0})
+				}
+			}
+		}
 		for _, cfg := range cfgs {
 			for hi, h := range c18Hosts(cfg, run.Env.Thorough()) {
 				// the (expensive) split-session client runs for every second host of a configuration, alternating over configurations
@@ -1357,7 +1493,7 @@ func TestVerif_C18(t *testing.T) {
 	run.Extra("flows", flows)
 	run.Extra("domain_reading", "port ignored (longest configured domain that is a suffix of the request host without its port)")
 	// the monitor must have seen every kind of cookie it guards
-	need := []string{"boundary_saves", "scenario_failing_callback_stale_csrf", "scenario_failing_callback_missing_csrf", "scenario_failing_callback_bad_state", "responses_status_403", "responses_status_500", "lines_csrf", "lines_csrf_deletion", "lines_session", "lines_session_deletion", "lines_split", "lines_split_deletion", "lines_ticket", "lines_ticket_deletion",
+	need := []string{"spelling_variants", "spelling_accepted", "boundary_saves", "scenario_failing_callback_stale_csrf", "scenario_failing_callback_missing_csrf", "scenario_failing_callback_bad_state", "responses_status_403", "responses_status_500", "lines_csrf", "lines_csrf_deletion", "lines_session", "lines_session_deletion", "lines_split", "lines_split_deletion", "lines_ticket", "lines_ticket_deletion",
 		"scenario_refresh_reissue", "scenario_refresh_reissue_large", "scenario_load_error_clearing", "scenario_authorisation_failure_clearing", "scenario_sign_out", "scenario_sign_out_large",
 		"scenario_htpasswd_login", "scenario_relogin_expires_stale_parts", "domain_rule_longest", "domain_rule_fallback", "domain_rule_none", "deletions_matching_held_cookie"}
 	for _, k := range need {
